@@ -1,7 +1,7 @@
 SPECIFICATION Spec
 CONSTANTS
   Big = TRUE
-  Only = {"hdrdst", "hdrsrc", "hdrtrunc", "copy3", "copy4", "far", "copytrunc", "insert", "zero", "overrun", "amplify", "edge"}
+  Only = {"hdrdst", "hdrsrc", "hdrtrunc", "copy3", "copy4", "far", "copytrunc", "insert", "zero", "overrun", "amplify", "edge", "hdrwrap"}
 INVARIANT InModel
 INVARIANT RefSatisfiesPost
 CHECK_DEADLOCK FALSE
